@@ -103,7 +103,15 @@ fn segments() -> Vec<Seg> {
     v.push(Seg { text: "{{".into(), out: Some("{".into()), brk_after: false });
     v.push(Seg { text: "}}".into(), out: Some("}".into()), brk_after: false });
     v.push(Seg { text: "{ ".into(), out: Some("{ ".into()), brk_after: false });
-    v.push(Seg { text: "{\t".into(), out: Some(format!("{{{}", " ".repeat(8))), brk_after: false });
+    // tabs stay in the derivation and are expanded with the tab width of the bar that renders it
+    v.push(Seg { text: "{\t".into(), out: Some("{\t".into()), brk_after: false });
+    v.push(Seg { text: "a\tb".into(), out: Some("a\tb".into()), brk_after: false });
+    // placeholders whose expansion depends on the rest of their line (\u{1}: bar cells, \u{2}: message
+    // padded to the remaining width) and two fixed ones
+    v.push(Seg { text: "{wide_bar}".into(), out: Some("\u{1}".into()), brk_after: false });
+    v.push(Seg { text: "{wide_msg}".into(), out: Some("\u{2}".into()), brk_after: false });
+    v.push(Seg { text: "{pos}".into(), out: Some("0".into()), brk_after: false });
+    v.push(Seg { text: "{bar:4}".into(), out: Some("░░░░".into()), brk_after: false });
     v.push(Seg { text: "{\n".into(), out: Some("{".into()), brk_after: true });
     v.push(Seg { text: "\n".into(), out: None, brk_after: false });
     for (key, content) in [("k", "VAL"), ("zz", ""), ("msg", "M")] {
@@ -161,35 +169,73 @@ fn fidelity(tier: Tier, shard: Shard, stats: &mut Stats) {
             }
         }
         let mk = |class: String, detail: String| Violation { class, config: "fidelity".into(), history: vec![format!("{:?}", tpl)], detail };
-        let style = match catch(|| ProgressStyle::with_template(&tpl)) {
-            Err(p) => return Err(mk(format!("fidelity panic: {}", panic_class(&p)), p)),
-            Ok(Err(e)) => return Err(mk("fidelity: a well-formed template is rejected".into(), format!("{e}"))),
-            Ok(Ok(s)) => s,
-        };
-        let style = style.with_key("k", |_: &ProgressState, w: &mut dyn Write| write!(w, "VAL").unwrap());
-        let got = match catch(|| {
-            let pb = bar_on(&catcher, Some(5), style).with_message("M");
-            let g = frame_lines(&catcher, &pb);
-            pb.abandon();
-            g
-        }) {
-            Ok(g) => g,
-            Err(p) => return Err(mk(format!("fidelity panic in draw: {}", panic_class(&p)), p)),
-        };
-        catcher.take();
-        // a final empty template line may or may not occupy a row
-        let mut alt = lines.clone();
-        if alt.last().map_or(false, |l| l.is_empty()) {
-            alt.pop();
+        // one element per line may take the remaining width
+        if lines.iter().any(|l| l.chars().filter(|c| *c == '\u{1}' || *c == '\u{2}').count() > 1) {
+            return Ok((0, false));
         }
-        if got != lines && got != alt {
-            let class = if idx.iter().any(|&i| segs[i].text.starts_with("{ ") || segs[i].text.starts_with("{\t") || segs[i].text.starts_with("{\n")) {
-                "fidelity: rendering differs from the derivation (template contains '{'+whitespace)"
-            } else {
-                "fidelity: rendering differs from the in-order concatenation of literals and expansions"
+        // route 0: with_template on a default bar; route 1 (templates with a tab): the template is put
+        // on the style of a live bar with tab width 4 through bar.style().template(..) + set_style
+        let routes: &[usize] = if tpl.contains('\t') { &[0, 1] } else { &[0] };
+        let mut got_all = Vec::new();
+        for &route in routes {
+            let tabw = if route == 0 { 8 } else { 4 };
+            let expect: Vec<String> = lines
+                .iter()
+                .map(|l| {
+                    let l = l.replace('\t', &" ".repeat(tabw));
+                    let rest = l.chars().filter(|c| *c != '\u{1}' && *c != '\u{2}').count();
+                    let room = 200usize.saturating_sub(rest);
+                    l.replace('\u{1}', &"░".repeat(room)).replace('\u{2}', &format!("M{}", " ".repeat(room.saturating_sub(1))))
+                })
+                .collect();
+            let style = match catch(|| ProgressStyle::with_template(&tpl)) {
+                Err(p) => return Err(mk(format!("fidelity panic: {}", panic_class(&p)), p)),
+                Ok(Err(e)) => return Err(mk("fidelity: a well-formed template is rejected".into(), format!("{e}"))),
+                Ok(Ok(s)) => s,
             };
-            return Err(mk(class.into(), format!("expected {:?} got {:?}", lines, got)));
+            let style = style.with_key("k", |_: &ProgressState, w: &mut dyn Write| write!(w, "VAL").unwrap());
+            let got = match catch(|| {
+                let pb = if route == 0 {
+                    bar_on(&catcher, Some(5), style).with_message("M")
+                } else {
+                    let pb = bar_on(&catcher, Some(5), ProgressStyle::with_template("{msg}").unwrap().with_key("k", |_: &ProgressState, w: &mut dyn Write| write!(w, "VAL").unwrap())).with_message("M").with_tab_width(4);
+                    pb.tick();
+                    pb.set_style(pb.style().template(&tpl).unwrap());
+                    pb
+                };
+                let g = frame_lines(&catcher, &pb);
+                pb.abandon();
+                g
+            }) {
+                Ok(g) => g,
+                Err(p) => return Err(mk(format!("fidelity panic in draw: {}", panic_class(&p)), p)),
+            };
+            catcher.take();
+            // a line that ends with {wide_msg} ends in padding: the terminal layer may write those
+            // blanks as its own right-edge filler, so trailing blanks of such a line are not compared
+            let ends_wide: Vec<bool> = lines.iter().map(|l| l.ends_with('\u{2}')).collect();
+            let norm = |v: &[String]| -> Vec<String> { v.iter().enumerate().map(|(i, l)| if ends_wide.get(i).copied().unwrap_or(false) { l.trim_end().to_string() } else { l.clone() }).collect() };
+            let (expect, got) = (norm(&expect), norm(&got));
+            // a final empty template line may or may not occupy a row
+            let mut alt = expect.clone();
+            if alt.last().map_or(false, |l| l.is_empty()) {
+                alt.pop();
+            }
+            if got != expect && got != alt {
+                let class = if route == 1 {
+                    "fidelity: rendering differs from the derivation when the template is installed on a live bar with tab width 4"
+                } else if idx.iter().any(|&i| segs[i].text.starts_with("{ ") || segs[i].text.starts_with("{\t") || segs[i].text.starts_with("{\n")) {
+                    "fidelity: rendering differs from the derivation (template contains '{'+whitespace)"
+                } else if tpl.contains("{wide_") {
+                    "fidelity: rendering differs from the derivation (template contains a wide element)"
+                } else {
+                    "fidelity: rendering differs from the in-order concatenation of literals and expansions"
+                };
+                return Err(mk(class.into(), format!("expected {:?} got {:?}", expect, got)));
+            }
+            got_all.push(got);
         }
+        let got = got_all;
         stats.sample(json!(tpl));
         let nt = idx.len() > 1;
         Ok((hash_of(&got), nt))
